@@ -372,3 +372,6 @@ def structural(chk, repo, f):
             chk.ob("R13.3", SYM, f"fmt at `{unparse(r)[:40]}` includes the "
                    f"trailing format", "aug" in kinds and "assign" in kinds,
                    r, f"reaching definitions of fmt: {kinds}")
+
+# added rules (appended to the explanation the evidence file carries)
+EXPLANATION += (" " + 'Added during the build (DESIGN.md 4.31, second table): the codec family is run on one master in two orders (no request depends on the requests before it), with differently split equal formats and mixed-width read-only tails.')
